@@ -65,6 +65,10 @@ var parseCtx = []struct{ pre, post string }{
 	{vT + "{css (1 ", " 2) c, x}\n{/template}\n"},            // 53 inside the css expression, tokens follow
 	{vT + "{call .t}{param k value=\"[1, 2 ", " 3]\"/}{/call}\n{/template}\n"}, // 54
 	{vT + "{['\\u12", "': 1]}\n{/template}\n"}, // 55 short unicode escape in a map key
+	{"\xef\xbb\xbf", ""},                        // 56 file starting with a byte order mark
+	{"\xef\xbb", "{namespace a}\n"},             // 57 two bytes of a byte order mark
+	{"\xef\xbb\xbf{namespace a}\n/** */\n{template .b}\n", "\n{/template}\n"}, // 58 valid file after a byte order mark
+	{"\xff\xfe", ""},                             // 59 UTF-16 byte order mark
 }
 
 // exprCtx: the same for parse.Expr
